@@ -821,6 +821,19 @@ def compare_nm(aug, impl, model):
     if any(marginal(d[5], eps) for d in b.D) or any(marginal(u, v) for u, v in b.T):
         nm_stats["marginal"] += 1
         return True
+    # the iterates have collapsed onto the minimiser (all coordinates of BOTH the implementation's and the model's next point below
+    # 1e-6 of the run's scale, every earlier point in agreement): the points are now differences of accumulated terms of the size
+    # of the scale, their leading digits are rounding noise on both sides, and the acceptance tests compare function values of
+    # the order of that noise squared - the two recurrences go separate ways without either being wrong (thorough tier, seed 0:
+    # fgm on cauchy[5] with epsilon = 5e-324, implementation at -5e-9, model at 1.7e-10 after ten evaluations: flagged by the
+    # relative-margin rule above, a false alarm). Counted, not flagged; a formula slip shows at the first evaluations, at full scale
+    first = next((k for k, (pp, qq, ss) in enumerate(zip(a.Q, b.Q, scales)) if not close_vec(pp, qq, NM_RTOL, ss)), None)
+    if first is not None and first >= 4:
+        big = lambda v, ss: any(math.isfinite(w) and abs(w) > 1e-6 * ss for w in v)  # noqa: E731
+        if not big(a.Q[first], scales[first]) and not big(b.Q[first], scales[first]) and \
+                all(same(u[0], v[0]) for u, v in zip(a.U[:max(0, first // 3)], b.U[:max(0, first // 3)])):
+            nm_stats["noise_floor"] = nm_stats.get("noise_floor", 0) + 1
+            return True
     return False
 
 
